@@ -131,13 +131,21 @@ func isReadStage(st int) bool { return st >= sPostReadCallHeader && st <= sPostR
 // ---------------------------------------------------------------- configuration (pure data; replayable)
 
 type PlugSpec struct {
-	Name string `json:"name"`
+	Name string `json:"name"` // unique per peer: identifies the instance in traces and scripts
 	Type string `json:"type"`
+	As   string `json:"as,omitempty"` // the name eRPC sees, when it differs (a plug-in added again under the name of a removed one)
+}
+
+func (p PlugSpec) pub() string {
+	if p.As != "" {
+		return p.As
+	}
+	return p.Name
 }
 
 // Op is one step of the registration script of a peer, executed in order.
 type Op struct {
-	Kind   string     `json:"op"`               // new | left | right | group | call | push | ucall | upush (unknown-route handlers)
+	Kind   string     `json:"op"`               // new | left | right | group | call | push | ucall | upush (unknown-route handlers) | remove (PluginContainer().Remove(Fn))
 	ID     int        `json:"id,omitempty"`     // group id / route id (unique per peer)
 	Parent int        `json:"parent,omitempty"` // parent group id (0 = root router)
 	Fn     string     `json:"fn,omitempty"`     // name in the handler pool
@@ -275,6 +283,8 @@ func chain(p *PeerSpec, rid int) (global, route []pref) {
 			left = append(mkPrefs(op, i, late(i, "left"), 0), left...)
 		case "right":
 			right = append(right, mkPrefs(op, i, late(i, "right"), 5)...)
+		case "remove": // Remove(name) on the global container: gone from the global container and from every chain derived from it
+			left, right = dropPub(left, op.Fn), dropPub(right, op.Fn)
 		case "group":
 			if d, ok := depthOf[op.ID]; ok {
 				groups[d] = mkPrefs(op, i, fmt.Sprintf("group-depth%d", d), d)
@@ -299,6 +309,16 @@ func chain(p *PeerSpec, rid int) (global, route []pref) {
 		route = append(route, right...)
 	}
 	return
+}
+
+func dropPub(ps []pref, pub string) []pref {
+	out := ps[:0:0]
+	for _, p := range ps {
+		if p.pub() != pub {
+			out = append(out, p)
+		}
+	}
+	return out
 }
 
 // cmpReg: -1 a must fire before b, +1 after, 0 not asserted.
@@ -329,6 +349,9 @@ func names(ps []pref) []string {
 	out := make([]string, len(ps))
 	for i, p := range ps {
 		out[i] = p.Name + "(" + p.Type + "," + p.Class + ")"
+		if p.As != "" {
+			out[i] = p.Name + " as " + p.As + "(" + p.Type + "," + p.Class + ")"
+		}
 	}
 	return out
 }
@@ -344,7 +367,16 @@ func foreignClass(p *PeerSpec, name string) string {
 				case "call", "push", "ucall", "upush":
 					return "foreign-handler"
 				}
-				return "global"
+				g, _ := chain(p, 0)
+				for _, x := range g {
+					if x.Name == name {
+						return "global"
+					}
+				}
+				if p.Ops[i].Kind == "right" {
+					return "removed-global-right"
+				}
+				return "removed-global-left"
 			}
 		}
 	}
@@ -568,6 +600,14 @@ type run struct {
 	seqMid map[string]string // link/originSide/seq -> message id
 	sc     *script
 	peers  [2]erpc.Peer
+	// results of the Remove calls of the registration scripts
+	removes []removeRes
+}
+
+type removeRes struct {
+	side, op int
+	name     string
+	err      error
 }
 
 var cur atomic.Value // *run
@@ -609,12 +649,14 @@ func (r *run) handler(p erpc.Peer, mid, route string, ctx uintptr, link string) 
 }
 
 type base struct {
-	name string
+	name string // instance key
+	pub  string // what eRPC sees
 	side int
 	r    *run
 }
 
-func (b *base) Name() string { return b.name }
+func (b *base) Name() string { return b.pub }
+func (b *base) key() string  { return b.name }
 
 // record appends the trace entry and returns the scripted verdict.
 func (b *base) record(stage int, sess erpc.CtxSession, ctx interface{}, msg erpc.Message) *script {
@@ -745,7 +787,7 @@ func (p *pPush) PreReadPushBody(c erpc.ReadCtx) *erpc.Status    { return p.rd(sP
 func (p *pPush) PostReadPushBody(c erpc.ReadCtx) *erpc.Status   { return p.rd(sPostReadPushBody, c) }
 
 func newPlugin(spec PlugSpec, side int, r *run) erpc.Plugin {
-	b := base{spec.Name, side, r}
+	b := base{spec.Name, spec.pub(), side, r}
 	switch spec.Type {
 	case "all":
 		return &pAll{b}
@@ -807,7 +849,7 @@ func hasStage(p erpc.Plugin, st int) bool {
 // selfCheck: the model's stage table must agree with the method sets of the Go types.
 func selfCheck() {
 	for typ := range typeStages {
-		p := newPlugin(PlugSpec{"x", typ}, 0, nil)
+		p := newPlugin(PlugSpec{Name: "x", Type: typ}, 0, nil)
 		for st := 0; st < sHandler; st++ {
 			if hasStage(p, st) != implements(typ, st) {
 				core.Fatalf("plug-in type %s: stage table and method set disagree on %s", typ, stageName[st])
@@ -828,7 +870,7 @@ func genPeer(r *core.Rand, side string) PeerSpec {
 		for i := 0; i < k; i++ {
 			n++
 			t := typeDist[r.Intn(len(typeDist))]
-			out = append(out, PlugSpec{fmt.Sprintf("%s%02d%s", strings.ToLower(side), n, t[:1]), t})
+			out = append(out, PlugSpec{Name: fmt.Sprintf("%s%02d%s", strings.ToLower(side), n, t[:1]), Type: t})
 		}
 		return out
 	}
@@ -945,7 +987,161 @@ func genConfig(r *core.Rand, nmsg int) *Config {
 		c.Msgs = append(c.Msgs, m)
 	}
 	genReplyFaults(core.NewRand(int64(r.Uint64()>>1), 17), c)
+	genContainerOps(core.NewRand(int64(r.Uint64()>>1), 23), c)
 	return c
+}
+
+// genContainerOps is a third pass (own PRNG stream): operations on the global container after
+// registration - Remove(name) of global plug-ins (from NewPeer, AppendLeft, AppendRight) at any later
+// point of the script, optionally followed by further appends, by adding a plug-in under the removed
+// name again, and Remove of a name that was never registered.
+func genContainerOps(r *core.Rand, c *Config) {
+	for side := 0; side < 2; side++ {
+		p := c.peer(side)
+		if r.Intn(2) == 0 {
+			continue
+		}
+		n := 0
+		insert := func(after int, op Op) int {
+			at := after + 1 + r.Intn(len(p.Ops)-after)
+			p.Ops = append(p.Ops[:at], append([]Op{op}, p.Ops[at:]...)...)
+			return at
+		}
+		fresh := func(as string) PlugSpec {
+			n++
+			t := typeDist[r.Intn(len(typeDist))]
+			return PlugSpec{Name: fmt.Sprintf("%sx%d%s", strings.ToLower(sideName[side]), n, t[:1]), Type: t, As: as}
+		}
+		for k, nk := 0, 1+r.Intn(2); k < nk; k++ {
+			type cand struct {
+				op   int
+				name string
+			}
+			var cands []cand
+			g, _ := chain(p, 0) // what is on the global container at the end of the script so far
+			for _, x := range g {
+				cands = append(cands, cand{x.op, x.pub()})
+			}
+			if len(cands) == 0 {
+				break
+			}
+			t := cands[r.Intn(len(cands))]
+			at := insert(t.op, Op{Kind: "remove", Fn: t.name})
+			if r.Intn(3) == 0 { // a later append refreshes every derived container
+				k := "right"
+				if r.Intn(2) == 0 {
+					k = "left"
+				}
+				at = insert(at, Op{Kind: k, Plugs: []PlugSpec{fresh("")}})
+			}
+			if r.Intn(3) == 0 { // the name comes back with a new instance
+				k := "right"
+				if r.Intn(2) == 0 {
+					k = "left"
+				}
+				insert(at, Op{Kind: k, Plugs: []PlugSpec{fresh(t.name)}})
+			}
+		}
+		if r.Intn(3) == 0 {
+			insert(0, Op{Kind: "remove", Fn: fmt.Sprintf("never-registered-%d", r.Intn(100))})
+		}
+	}
+	for _, p := range []*PeerSpec{&c.A, &c.B} {
+		for _, op := range p.Ops {
+			if op.Kind == "remove" && c.Class == "static-placement" {
+				c.Class = "container-ops"
+			}
+		}
+	}
+}
+
+// checkContainers compares what the global container reports after the registration script with the
+// operations performed: Remove answers nil exactly for a name that is on the container, GetAll lists
+// exactly the plug-ins added and not removed, GetByName finds exactly those.
+func (r *run) checkContainers(cfg *Config) []viol {
+	var out []viol
+	msg := &Msg{ID: "none", From: "A", Kind: "call"}
+	if len(cfg.Msgs) > 0 {
+		msg = &cfg.Msgs[0]
+	}
+	for side := 0; side < 2; side++ {
+		p := cfg.peer(side)
+		pc := r.peers[side].PluginContainer()
+		global, _ := chain(p, 0)
+		var got, want []string
+		for _, x := range pc.GetAll() {
+			got = append(got, x.Name())
+		}
+		inst := map[string]string{}
+		for _, x := range global {
+			want = append(want, x.pub())
+			inst[x.pub()] = x.Name
+		}
+		wit := func(detail string) map[string]interface{} {
+			var script []string
+			for _, op := range p.Ops {
+				switch op.Kind {
+				case "new", "left", "right":
+					var ns []string
+					for _, q := range op.Plugs {
+						ns = append(ns, q.pub())
+					}
+					script = append(script, op.Kind+"("+strings.Join(ns, ",")+")")
+				case "remove":
+					script = append(script, "Remove("+op.Fn+")")
+				}
+			}
+			return map[string]interface{}{"peer": sideName[side], "container_operations": script, "GetAll": got, "expected_on_container": want, "detail": detail}
+		}
+		report := func(symptom, class, what string) {
+			out = append(out, viol{symptom, "container", class, what, msg, wit(what)})
+		}
+		// Remove results: replay the script on a name set
+		present := map[string]string{} // public name -> side of the container
+		ri := 0
+		for i, op := range p.Ops {
+			switch op.Kind {
+			case "new", "left", "right":
+				for _, q := range op.Plugs {
+					present[q.pub()] = map[string]string{"new": "left", "left": "left", "right": "right"}[op.Kind]
+				}
+			case "remove":
+				for ; ri < len(r.removes) && (r.removes[ri].side != side || r.removes[ri].op != i); ri++ {
+				}
+				if ri == len(r.removes) {
+					continue
+				}
+				res := r.removes[ri]
+				if where, ok := present[op.Fn]; ok {
+					delete(present, op.Fn)
+					if res.err != nil {
+						report("remove-result", "removed-global-"+where, fmt.Sprintf("peer %s: Remove(%q) of a plug-in on the global container returned the error %q", sideName[side], op.Fn, res.err))
+					}
+				} else if res.err == nil {
+					report("remove-result", "never-registered", fmt.Sprintf("peer %s: Remove(%q) of a name that is not on the global container returned nil", sideName[side], op.Fn))
+				}
+			}
+		}
+		a, b := append([]string{}, got...), append([]string{}, want...)
+		sort.Strings(a)
+		sort.Strings(b)
+		if strings.Join(a, ",") != strings.Join(b, ",") {
+			report("container-state", "global", fmt.Sprintf("peer %s: GetAll() of the global container lists %v, the operations performed leave %v", sideName[side], got, want))
+		}
+		for _, x := range global {
+			if q := pc.GetByName(x.pub()); q == nil {
+				report("container-state", x.Class, fmt.Sprintf("peer %s: GetByName(%q) returns nil for a plug-in on the global container", sideName[side], x.pub()))
+			} else if b, ok := q.(interface{ key() string }); ok && b.key() != x.Name {
+				report("container-state", x.Class, fmt.Sprintf("peer %s: GetByName(%q) returns the instance %s, the one on the container is %s", sideName[side], x.pub(), b.key(), x.Name))
+			}
+		}
+		for _, op := range p.Ops {
+			if op.Kind == "remove" && inst[op.Fn] == "" && pc.GetByName(op.Fn) != nil {
+				report("container-state", "removed-global", fmt.Sprintf("peer %s: GetByName(%q) still finds the plug-in after Remove returned", sideName[side], op.Fn))
+			}
+		}
+	}
+	return out
 }
 
 var faultKinds = []string{"err", "panic", "unmarshal:j", "unmarshal:p", "unmarshal:t", "unmarshal:x", "unmarshal:s", "big", "slow"}
@@ -971,7 +1167,7 @@ func genReplyFaults(r *core.Rand, c *Config) {
 			for i, np := 0, r.Intn(3); i < np; i++ {
 				n++
 				t := typeDist[r.Intn(len(typeDist))]
-				op.Plugs = append(op.Plugs, PlugSpec{fmt.Sprintf("%su%d%s", strings.ToLower(sideName[side]), n, t[:1]), t})
+				op.Plugs = append(op.Plugs, PlugSpec{Name: fmt.Sprintf("%su%d%s", strings.ToLower(sideName[side]), n, t[:1]), Type: t})
 			}
 			at := 1 + r.Intn(len(p.Ops))
 			p.Ops = append(p.Ops[:at], append([]Op{op}, p.Ops[at:]...)...)
@@ -1043,6 +1239,8 @@ func (r *run) buildPeerCfg(side int, spec *PeerSpec, pcfg erpc.PeerConfig) (erpc
 			peer.PluginContainer().AppendLeft(mk(op.Plugs)...)
 		case "right":
 			peer.PluginContainer().AppendRight(mk(op.Plugs)...)
+		case "remove":
+			r.removes = append(r.removes, removeRes{side, i, op.Fn, peer.PluginContainer().Remove(op.Fn)})
 		case "group":
 			subs[op.ID] = rt.SubRoute(fmt.Sprintf("g%d", op.ID), mk(op.Plugs)...)
 		case "call":
@@ -1130,6 +1328,16 @@ func runConfig(cfg *Config, st *caseStats, distinct bool) (viols []viol, inconcl
 		r.peers[0].Close()
 		r.peers[1].Close()
 	}()
+	viols = append(viols, r.checkContainers(cfg)...)
+	for _, rm := range r.removes {
+		if distinct {
+			if rm.err == nil {
+				core.Add("container_remove_ok", 1)
+			} else {
+				core.Add("container_remove_refused", 1)
+			}
+		}
+	}
 	pf := protos.ByName("raw").Func
 	link, err := bed.Connect(r.peers[0], r.peers[1], pf, pf, nil)
 	if err != nil {
@@ -1781,6 +1989,50 @@ func (r *run) evaluate(cfg *Config, m *Msg, out outcome, st *caseStats, distinct
 		}
 	}
 	ck.stageOrder(x, classOf)
+	if distinct && matched { // evidence: messages to a route that was registered while a since removed global plug-in was present
+		py := cfg.peer(y)
+		ri, _ := py.opByID(m.Route)
+		for j, op := range py.Ops {
+			if op.Kind != "remove" || j < ri {
+				continue
+			}
+			for a := 0; a < ri; a++ {
+				for _, q := range py.Ops[a].Plugs {
+					k := py.Ops[a].Kind
+					if q.pub() != op.Fn || (k != "new" && k != "left" && k != "right") {
+						continue
+					}
+					due := implements(q.Type, sPreWriteReply)
+					if m.Kind == "push" {
+						due = implements(q.Type, sPreReadPushBody)
+					} else {
+						due = due || implements(q.Type, sPreReadCallBody)
+					}
+					stillGone := true
+					for _, g := range gy {
+						if g.Name == q.Name {
+							stillGone = false
+						}
+					}
+					if !due || !stillGone {
+						continue
+					}
+					later := "no-later-append"
+					for _, o2 := range py.Ops[j+1:] {
+						if o2.Kind == "left" || o2.Kind == "right" {
+							later = "later-append"
+						}
+					}
+					side := "left"
+					if k == "right" {
+						side = "right"
+					}
+					core.Add("messages_to_routes_registered_before_a_remove_"+strings.Replace(later, "-", "_", -1), 1)
+					core.Distinct("nontrivial", fmt.Sprintf("removed-global-%s/%s/route-registered-before-remove/%s", side, m.Kind, later))
+				}
+			}
+		}
+	}
 	if distinct {
 		classes := map[string]bool{}
 		if m.Veto != nil && vetoPos != "none" {
@@ -1886,6 +2138,8 @@ func shrink(cfg *Config, v viol) *Config {
 					removable = !referenced
 				case "left", "right":
 					removable = len(op.Plugs) == 0
+				case "remove":
+					removable = true
 				}
 				if op.Parent != 0 { // hang the route / group one level higher
 					cands = append(cands, func(c *Config) bool {
